@@ -12,7 +12,6 @@ import (
 
 	"xv/adoc"
 	"xv/impl"
-	"xv/refxp"
 	"xv/run"
 	"xv/snap"
 )
@@ -485,44 +484,19 @@ func C13(c *run.Check) {
 		frontier = next
 		completed = depth
 	}
-	// BuildExpr of the same string yields an equivalent query: every expression of
-	// the C08 AST universe is built 3 times; all builds must agree on 3 documents
-	// (auxiliary: this samples the parser's internal ordering, it cannot enumerate it)
+	// BuildExpr of the same string yields an equivalent query, whatever order the
+	// parser's map iteration records ambiguous alternatives in: every single
+	// deviation from the built order is enumerated (c13amb.go)
 	if c.Violations() == 0 {
-		asts := c08ASTs(true)
-		run.ParallelW(len(asts), func(w, i int) {
-			if c.TimeUp() || (c.Quick() && i%3 != 0) {
-				return
-			}
-			text := refxp.Render(asts[i], refxp.RenderOpt{})
-			var first []string
-			for k := 0; k < 3; k++ {
-				var outs []string
-				for dk := 0; dk < 3; dk++ {
-					b, _ := impl.Bind(c08Doc(dk))
-					o := c08Impl(b, text, nil)
-					if o.Err {
-						o.ErrText = "" // only error-vs-value is compared, never the text
-					}
-					outs = append(outs, o.String())
-				}
-				c.Evaluations.Add(3)
-				if k == 0 {
-					first = outs
-				} else if strings.Join(first, "|") != strings.Join(outs, "|") {
-					c.Violation(map[string]interface{}{"expr": text, "build_a": first, "build_b": outs}, fmt.Sprintf("BuildExpr(%q) twice gave queries with different results: %v vs %v", text, first, outs))
-					return
-				}
-			}
-		})
+		c13ParserOrder(c)
 	}
 	c.Set("max_depth_completed", completed)
 	c.Set("operations_per_state", len(ops))
 	if completed < maxDepth {
 		c.Exhaustive = false
 	}
-	c.Rule = fmt.Sprintf("explicit-state BFS over call histories on 2 documents: state = (contents, length and capacity of the two caller-held node-set slots); %d operations per state (Exec of %d menu expressions incl. unions of caller variables, reverse axes, filters, from 3 context nodes (root, element, attribute), optionally keeping the result - possibly re-sliced to one element with spare capacity - in a slot; Unmarshal into slice and struct; BuildExpr replacing a compiled object); every transition = replay of the shortest history on fresh real objects + 1 call; after the call deep fingerprints (unexported fields, spare capacity, cyclic pointers) of the document tree, both slots' full-capacity views, all compiled expressions and the caller's binding maps must be unchanged, the result must equal the result of the same call with the same argument values in every other history, and a reused compiled expression must agree with a freshly built one", len(ops), len(c13Menu))
-	c.Assume("fingerprints are computed by reflection over the real objects (harness/snap); BuildExpr repeatability over the parser's internal ordering is sampled (3 builds), not enumerated")
+	c.Rule = fmt.Sprintf("explicit-state BFS over call histories on 2 documents: state = (contents, length and capacity of the two caller-held node-set slots); %d operations per state (Exec of %d menu expressions incl. unions of caller variables, reverse axes, filters, from 3 context nodes (root, element, attribute), optionally keeping the result - possibly re-sliced to one element with spare capacity - in a slot; Unmarshal into slice and struct; BuildExpr replacing a compiled object); every transition = replay of the shortest history on fresh real objects + 1 call; after the call deep fingerprints (unexported fields, spare capacity, cyclic pointers) of the document tree, both slots' full-capacity views, all compiled expressions and the caller's binding maps must be unchanged, the result must equal the result of the same call with the same argument values in every other history, and a reused compiled expression must agree with a freshly built one; plus, for every expression of the C08 AST universe, every ambiguous alternative list of the built parse forest rotated so that each alternative comes first once (covering every order the parser's map iteration can produce, one list at a time): same results required", len(ops), len(c13Menu))
+	c.Assume("fingerprints are computed by reflection over the real objects (harness/snap); parser-order exploration permutes one alternative list at a time (<=1 deviation from the built order)")
 }
 
 func init() {
